@@ -832,7 +832,15 @@ func TestRandomConfigs(t *testing.T) {
 			if i > 0 {
 				url = rapid.SampledFrom([]string{"h.com/p", "h.com/q", "h.com/*"}).Draw(t, "url-"+name)
 			}
-			c.Flows = append(c.Flows, genFlow(t, name, others, url, nflows > 1, haveQuota))
+			f := genFlow(t, name, others, url, nflows > 1, haveQuota)
+			// the flow's own filter may also constrain status codes, query parameters or headers (evaluated on
+			// both directions, also for a response the gateway generates itself)
+			f.FilterExtra = rapid.SampledFrom([]string{"", "", "  status_code: [200, 418]\n", "  status_code: [500]\n",
+				"  query_params:\n    - key: q\n      value: \"1\"\n", "  headers:\n    - key: x-k\n      value: \"1\"\n"}).Draw(t, "filter-"+name)
+			if f.FilterExtra != "" {
+				c.Tags = append(c.Tags, "filter-with-further-constraints")
+			}
+			c.Flows = append(c.Flows, f)
 		}
 		for _, f := range c.Flows {
 			for _, cn := range append(append([]fg.Conn{}, f.Req...), f.Resp...) {
